@@ -4,7 +4,8 @@ import json, os, re, shutil, sys, glob
 pid = sys.argv[1]
 rnd = sys.argv[2] if len(sys.argv) > 2 else ''
 src = '/tmp/adv%s_%s_out' % (rnd, pid)
-off = 2 * (int(rnd) - 1) if rnd else 0
+existing = [int(d.rsplit('-', 1)[1]) for d in glob.glob('/verif/seeded/%s-*' % pid)]
+off = max(existing) if (rnd and existing) else 0
 for i in (1, 2, 3):
     pf = '%s/patch%d.diff' % (src, i)
     if not os.path.exists(pf): continue
